@@ -631,7 +631,7 @@ def HonestOp (st : CacheState) : Op → Prop
   | .replaceTypes es ds _ => HonestTypeEntries st.schema.types es ∧ HonestDirEntries st.schema.directives ds
   /- a structural plain assignment keeps the invariant when `validate()` can see it (`seen`), or when it is made
      before any verdict was cached; the other case is `cache_unsound_unseen_structural_setter` -/
-  | .assignStructure _ seen => seen = true ∨ st.isValid = false
+  | .assignStructure _ seen => cfgCacheTracksStructure = true ∨ seen = true ∨ st.isValid = false
   | _ => True
 
 private theorem map_replace_id {α} (name : α → String) (xs : List α) (n : String) (new : α)
@@ -966,9 +966,10 @@ theorem step_inv (st : CacheState) (op : Op) (hh : HonestOp st op) (h : CacheInv
   | assignResolver lvl tn fn r sm => exact step_inv_resolver st _ rfl h
   | assignArguments tn fn args => exact step_inv_resolver st _ rfl h
   | assignStructure s' seen =>
-    simp only [step]
+    simp only [step, assignStructureStep]
     intro hv
-    rcases hh with hs | hs
+    rcases hh with hs | hs | hs
+    · rw [hs] at hv; simp at hv
     · rw [hs] at hv; simp at hv
     · rw [hs] at hv; simp at hv
 
@@ -1044,42 +1045,85 @@ theorem legacy_directive_unsound :
     whatever it does to the schema -/
 theorem structural_setter_seen_sound (st : CacheState) (s' : SchemaD) :
     CacheInv (step st (.assignStructure s' true)).1 := by
-  simp only [step]; intro hv; simp at hv
+  simp only [step, assignStructureStep]; intro hv; simp at hv
 
-/-- **cache soundness over EVERY public mutator** (kept visible; false on today's tree): replace requests honest about
-    identity, everything else unrestricted -/
+/-- fix C13-S12 is in the tree: the comparison `validate()` makes covers everything the validator reads (root types,
+    names, fields and their types, interfaces, union members, enum values, input fields, directives) -/
+theorem cache_tracks_structure : cfgCacheTracksStructure = true := by decide
+
+/-- **cache soundness over EVERY public mutator**: replace requests honest about identity, everything else
+    unrestricted - structural plain assignments included, seen by the probe or not -/
 def CacheSoundAllMutators : Prop :=
   ∀ (st : CacheState), CacheInv st → ∀ op : Op,
     (∀ es ds hl, op = .replaceTypes es ds hl → HonestOp st op) → CacheInv (step st op).1
 
+/-- **FULL since fix C13-S12** (was refuted: `cache_sound_all_mutators_fails_today`): every operation of the machine,
+    with NO side condition on structural plain assignments, keeps "cached-valid ⇒ the current schema is valid". -/
+theorem cache_sound_all_mutators : CacheSoundAllMutators := by
+  intro st h op hrep
+  apply step_inv st op _ h
+  cases op with
+  | replaceTypes es ds hl => exact hrep es ds hl rfl
+  | assignStructure s' seen => exact Or.inl cache_tracks_structure
+  | validate => trivial
+  | registerDefaultResolver tn r a => trivial
+  | registerResolver tn fn r a sm => trivial
+  | registerSubscription tn fn r a sm => trivial
+  | assignResolver lvl tn fn r sm => trivial
+  | assignArguments tn fn args => trivial
+
+/-- every history over ALL mutators, honest replace requests being the only condition -/
+theorem cache_sound_every_history (st : CacheState) (h : CacheInv st) (ops : List Op)
+    (hh : ∀ pre op, (∃ post, ops = pre ++ op :: post) →
+      ∀ es ds hl, op = .replaceTypes es ds hl → HonestOp (run st pre) op) :
+    CacheInv (run st ops) := by
+  induction ops generalizing st with
+  | nil => exact h
+  | cons op ops ih =>
+    have h1 := cache_sound_all_mutators st h op (hh [] op ⟨ops, rfl⟩)
+    apply ih _ h1
+    intro pre op' ⟨post, e⟩
+    exact hh (op :: pre) op' ⟨post, by rw [e]; rfl⟩
+
 private def wSchemaBad : SchemaD := { types := [wInt, wQuery, { wA with interfaces := ["Query"] }] }
 
-/-- **Refutation.** After `validate()`, `schema.types["A"].interfaces = [Query]` (an object type "implementing" an
-    object type; equally `field.type = <input type>`, `union.types = []`, `input_type.fields = []`,
-    `input_field.type = <object type>`, `type.name = "__T"`, `schema.query_type = <interface>`): no resolver, no
-    argument object and no count changes, `_current_resolvers()` is the same tuple, and `validate()` keeps returning
-    although the schema is now invalid. Outside the property's statement ("recomputed after resolvers are
-    reassigned"); recorded as a limit of the cache (ASSUMPTIONS of corr/C13.py, evidence key
-    `outside_statement_stale_after_structural_setter`). -/
+/-- the machine of the tree BEFORE fix C13-S12: the verdict is reset only by the assignments the comparison sees -/
+def stepBeforeS12 (st : CacheState) : Op → CacheState × Outcome
+  | .assignStructure s' seen => assignStructureStep false st s' seen
+  | op => step st op
+
+def CacheSoundAllMutatorsBeforeS12 : Prop :=
+  ∀ (st : CacheState), CacheInv st → ∀ op : Op,
+    (∀ es ds hl, op = .replaceTypes es ds hl → HonestOp st op) → CacheInv (stepBeforeS12 st op).1
+
+/-- **Refutation, LEGACY (the tree before fix C13-S12).** After `validate()`, `schema.types["A"].interfaces = [Query]`
+    (an object type "implementing" an object type; equally `field.type = <input type>`, `union.types = []`,
+    `input_type.fields = []`, `input_field.type = <object type>`, `type.name = "__T"`,
+    `schema.query_type = <interface>`): no resolver, no argument object and no count changed, `_current_resolvers()`
+    was the same tuple, and `validate()` kept returning although the schema was invalid. Outside the property's
+    statement ("recomputed after resolvers are reassigned"); repaired by proposed_fixes/C13-S12.patch. -/
 theorem cache_unsound_unseen_structural_setter :
-    CacheInv wState ∧ wState.isValid = true ∧ ¬ CacheInv (step wState (.assignStructure wSchemaBad false)).1 := by
+    CacheInv wState ∧ wState.isValid = true ∧
+      ¬ CacheInv (stepBeforeS12 wState (.assignStructure wSchemaBad false)).1 := by
   refine ⟨wState_inv, rfl, ?_⟩
   intro h
   have := h (by decide)
   rw [← validate_iff] at this
   exact absurd this (by decide)
 
-theorem cache_sound_all_mutators_fails_today : ¬ CacheSoundAllMutators := by
+/-- (name kept: "today" was the tree before fix C13-S12) the statement over every mutator failed there -/
+theorem cache_sound_all_mutators_fails_today : ¬ CacheSoundAllMutatorsBeforeS12 := by
   intro h
   exact cache_unsound_unseen_structural_setter.2.2
     (h wState wState_inv (.assignStructure wSchemaBad false) (fun es ds hl e => by cases e))
 
-/-- ...and what remains true of every history over ALL mutators: `cache_sound_all` with `HonestRun`, whose clause for a
-    structural assignment is "seen by the comparison, or made while no verdict is cached". Non-vacuity: a seen retyping
-    after a cached verdict, followed by `validate()`, recomputes and rejects. -/
+/-- non-vacuity on today's tree: the same retyping after a cached verdict, NOT seen by the probe, followed by
+    `validate()`, recomputes and rejects -/
+example : runTrace wState [.assignStructure wSchemaBad false, .validate] = [.ok, .validationError] := by decide
+
 example : HonestRun wState [.assignStructure wSchemaBad true, .validate]
     ∧ runTrace wState [.assignStructure wSchemaBad true, .validate] = [.ok, .validationError] := by
-  refine ⟨⟨Or.inl rfl, trivial, trivial⟩, by decide⟩
+  refine ⟨⟨Or.inr (Or.inl rfl), trivial, trivial⟩, by decide⟩
 
 /-! ### independence of the order of types -/
 
